@@ -11,13 +11,17 @@ C20 (second half) — provider bank: model of `forml/provider/__init__.py`.
   Bank.Path.load (`__import__(v, fromlist=['*'])`) ↦ `loadPath`    (package `__init__`, then the module, for a package
                                                                     its `__all__` sub-modules; ModuleNotFoundError ignored
                                                                     unless explicit → MissingError)
-  Bank.get                                   ↦ `get`               (`base = sorted(self.paths)`, `[*base, *reference.paths(base)]`,
-                                                                    `pop()` from the end until the reference is registered)
+  Bank.get                                   ↦ `get`, `getLoop`    (repaired: `base = sorted(self.paths)`, the last element of
+                                                                    `[*base, *reference.paths(base)]` not searched yet is
+                                                                    loaded, the list is rebuilt, until the reference is
+                                                                    registered or nothing is left; `getOnce` = before the
+                                                                    repair: the list built once)
   Meta.__getitem__                           ↦ `get` result        (KeyError → MissingError)
 
-The iteration order of the `set` `self.paths` is not determined by the program (string hashes, PYTHONHASHSEED): it is
-an explicit parameter `order` of `get` (a permutation of the bank's path values).  `Bank.get` (repaired code, fix
-C20-sorted-search-paths) sorts what it iterates, so that the parameter provably does not matter (`C20_lookup_order_free`).
+The iteration order of the `set` `self.paths` is not determined by the program (string hashes, PYTHONHASHSEED): in the
+legacy `getOnce` it is an explicit parameter `order` (a permutation of the bank's path values).  `Bank.get` (since fix
+C20-sorted-search-paths) sorts what it iterates, so that the order provably does not matter (`C20_lookup_order_free`);
+the repaired `get` sorts the model's own representation of the set.
 Names (packages, sub-modules, aliases, qualnames) are naturals numbered by the harness in the order of the strings, so
 that the order of `Mod` below is Python's order of the dotted module names ('.' sorts before every identifier
 character); a sub-module name and an alias with the same spelling are the same number, because `Alias.paths` builds
@@ -226,14 +230,15 @@ def refPaths (r : Ref) (base : List PathE) : List PathE :=
       | none => some ⟨⟨b.mod.pkg, some a⟩, false⟩
       | some _ => none)  -- deeper paths are not generated (three-level names are outside the model)
 
-/-- `while reference not in self.provider and paths: paths.pop().load()` — `todo` is the list in pop order -/
-def getLoop (w : World) (iface : ClassId) (r : Ref) (st : St) : List PathE → St × Option Err
+/-- LEGACY (`Bank.get` before the repair C20-F2): `while reference not in self.provider and paths: paths.pop().load()`
+over a search list that was built once — `todo` is that list in pop order -/
+def getLoopOnce (w : World) (iface : ClassId) (r : Ref) (st : St) : List PathE → St × Option Err
   | [] => (st, none)
   | p :: rest =>
     if (lookupRef r (getBank iface st.banks).provider).isSome then (st, none)
     else match loadPath w st p with
       | (st', some e) => (st', some e)
-      | (st', none) => getLoop w iface r st' rest
+      | (st', none) => getLoopOnce w iface r st' rest
 
 /-- the bank's paths arranged in the set's iteration order -/
 def arrange (paths : List PathE) (order : List Mod) : List PathE :=
@@ -280,11 +285,49 @@ def finish (iface : ClassId) (r : Ref) : St × Option Err → St × Res
     | some c => (st', .ok c)
     | none => (st', .error .missing)
 
-/-- `Meta.__getitem__` → `Bank.get` -/
-def get (w : World) (st : St) (iface : ClassId) (r : Ref) (order : List Mod) : St × Res :=
+/-- LEGACY: `Meta.__getitem__` → `Bank.get` as it was before the repair C20-F2 (the search list is built once) -/
+def getOnce (w : World) (st : St) (iface : ClassId) (r : Ref) (order : List Mod) : St × Res :=
   match lookupRef r (getBank iface st.banks).provider with
   | some c => (st, .ok c)
-  | none => finish iface r (getLoop w iface r st (todoPaths (getBank iface st.banks) r order))
+  | none => finish iface r (getLoopOnce w iface r st (todoPaths (getBank iface st.banks) r order))
+
+/-- `[*base, *reference.paths(base)]` with `base = sorted(self.paths)`, in the order in which the repaired loop takes
+its elements (from the end).  Sorting makes the iteration order of the set irrelevant (`sortPaths_perm`): the model
+sorts its own representation of the set. -/
+def searchList (bank : Bank) (r : Ref) : List PathE :=
+  let base := sortPaths bank.paths
+  (base ++ refPaths r base).reverse
+
+/-- `paths = [p for p in (*base, *reference.paths(base)) if p not in searched]`; `paths[-1]` (`Bank.Path` is compared
+and hashed by its value only: `searched` holds module names) -/
+def nextPath (bank : Bank) (r : Ref) (searched : List Mod) : Option PathE :=
+  (searchList bank r).find? (fun p => !searched.contains p.mod)
+
+/-- every `path=` declared by any class statement of the world -/
+def declaredPaths (w : World) : List Mod := w.flatMap (fun e => e.2.classes.flatMap (fun c => c.paths))
+
+/-- an upper bound of the number of iterations of the search loop: every iteration searches a module name it has not
+searched before, and every candidate is a declared search path or derived from one (`Lemmas/C20Hist.lean`
+`getLoop_closed` proves that the bound is never reached from a state reached by imports) -/
+def searchFuel (w : World) : Nat := 2 * (declaredPaths w).length + 2
+
+/-- `Bank.get` (repaired, fix C20-search-paths-registered-during-lookup):
+`while reference not in self.provider: … if not paths: break; searched.add(paths[-1]); paths[-1].load()` — the search
+list is rebuilt after every import, because a class discovered on the way may have registered further search paths -/
+def getLoop (w : World) (iface : ClassId) (r : Ref) : Nat → St → List Mod → St × Option Err
+  | 0, st, _ => (st, none)
+  | n + 1, st, searched =>
+    if (lookupRef r (getBank iface st.banks).provider).isSome then (st, none)
+    else match nextPath (getBank iface st.banks) r searched with
+      | none => (st, none)
+      | some p =>
+        match loadPath w st p with
+        | (st', some e) => (st', some e)
+        | (st', none) => getLoop w iface r n st' (p.mod :: searched)
+
+/-- `Meta.__getitem__` → `Bank.get` -/
+def get (w : World) (st : St) (iface : ClassId) (r : Ref) : St × Res :=
+  finish iface r (getLoop w iface r (searchFuel w) st [])
 
 /-- registering a list of classes into one bank (the single-bank view used by the order theorems) -/
 def addAll (b : Bank) : List ClassDef → Except Err Bank
